@@ -262,6 +262,10 @@ func tunnelSubTLVs() []struct {
 	add("unknown-short", bgp.NewTunnelEncapSubTLVUnknown(0x7f, []byte{1, 2, 3}))
 	add("unknown-empty", bgp.NewTunnelEncapSubTLVUnknown(3, nil))
 	add("unknown-long-type", bgp.NewTunnelEncapSubTLVUnknown(0xff, bytesN(300, 0)))
+	// attribute value of exactly 255 / 256 bytes (TLV header 4 + sub-TLV header 2 + value): the sub-TLV
+	// constructor does not count the value, so the extended-length decision is left to Serialize
+	add("unknown-249", bgp.NewTunnelEncapSubTLVUnknown(0x7e, bytesN(249, 0)))
+	add("unknown-250", bgp.NewTunnelEncapSubTLVUnknown(0x7e, bytesN(250, 0)))
 	return out
 }
 
@@ -595,6 +599,19 @@ func AttributeBuilders() []AttrBuilder {
 				return must(bgp.NewPathAttributeMpUnreachNLRI(f, []bgp.PathNLRI{{NLRI: nl[0].NLRI, ID: 1}, {NLRI: nl[1].NLRI, ID: 2}}))
 			})
 		}
+	}
+	// MP_REACH whose value is exactly 255 / 256 bytes only when ADD-PATH identifiers are on the wire
+	// (9 + 29*8 + 9 + {5,6}): the constructor computes the length without them, so the extended-length
+	// decision is taken at serialisation time
+	for _, last := range []string{"0.0.0.0/0", "10.0.0.0/8"} {
+		addID("mp-reach-"+bgp.RF_IPv4_UC.String(), "list31-value-crosses-255-with-path-ids-"+last, ASAny, bgp.RF_IPv4_UC, true, func() pa {
+			var l []bgp.PathNLRI
+			for i := 0; i < 29; i++ {
+				l = append(l, bgp.PathNLRI{NLRI: must(bgp.NewIPAddrPrefix(netip.PrefixFrom(netip.AddrFrom4([4]byte{10, byte(i), 1, 0}), 24))), ID: uint32(i + 1)})
+			}
+			l = append(l, bgp.PathNLRI{NLRI: must(bgp.NewIPAddrPrefix(p("192.0.2.1/32"))), ID: 30}, bgp.PathNLRI{NLRI: must(bgp.NewIPAddrPrefix(p(last))), ID: 31})
+			return must(bgp.NewPathAttributeMpReachNLRI(bgp.RF_IPv4_UC, l, a("192.0.2.1")))
+		})
 	}
 	// MP_REACH large enough to need the extended length: 70 IPv4-unicast /24 prefixes (4 bytes each)
 	addID("mp-reach-"+bgp.RF_IPv4_UC.String(), "list70", ASAny, bgp.RF_IPv4_UC, true, func() pa {
